@@ -492,7 +492,33 @@ def o_C06(sc):
     return _o_C06(sc)
 
 
+def _o_C06_interval_list(sc):
+    """the mean-of-pairs clause with a LIST of averaging intervals that leave a gap"""
+    L = mkl(sc)
+    if len(L) < 2:
+        return None
+    ts_, te_ = float(sc['trains'][0][1]), float(sc['trains'][0][2])
+    T_ = te_ - ts_
+    ivl = [(ts_ + T_ / 8, ts_ + 3 * T_ / 8), (ts_ + 5 * T_ / 8, ts_ + 7 * T_ / 8)]
+    for name, f, meas in (('isi_distance', spk.isi_distance, 'isi'), ('spike_distance', spk.spike_distance, 'spike')):
+        k = kwargs_of(sc, meas)
+        if k.get('MRTS') == 'auto':
+            continue
+        d = quiet(f, L, interval=ivl, **k)
+        ps = [quiet(f, L[i], L[j], interval=ivl, **k) for i in range(len(L)) for j in range(i + 1, len(L))]
+        if not feq(d, sum(ps) / len(ps)):
+            return 'C06 %s(list, interval=%s) = %r, the mean of the pair distances over the same intervals is %r' % (name, ivl, d, sum(ps) / len(ps))
+    return None
+
+
 def _o_C06(sc):
+    r_ = _o_C06_interval_list(sc) if 'own0' not in sc else None
+    if r_:
+        return r_
+    return _o_C06_main(sc)
+
+
+def _o_C06_main(sc):
     L = mkl(sc)
     N = len(L)
     pairs = [(i, j) for i in range(N) for j in range(i + 1, N)]
@@ -692,9 +718,11 @@ def o_C13(sc):
         a = quiet(f, raw, **k) if 'list' in extra else quiet(f, raw[0], raw[1], **k)
         if not unchanged():
             return 'C13 %s modified the spike times or edges of the trains passed to it' % name
-        b = quiet(f, R, **k) if 'list' in extra else quiet(f, R[0], R[1], **k)
+        # a two-train call reconciles the PAIR (its common interval is that of the two trains, not of the list)
+        Rp = quiet(spk.spikes.reconcile_spike_trains, [raw[0], raw[1]])
+        b = quiet(f, R, **k) if 'list' in extra else quiet(f, Rp[0], Rp[1], **k)
         k2 = dict(k); k2['Reconcile'] = False
-        c = quiet(f, R, **k2) if 'list' in extra else quiet(f, R[0], R[1], **k2)
+        c = quiet(f, R, **k2) if 'list' in extra else quiet(f, Rp[0], Rp[1], **k2)
         if not res_eq(a, b):
             return 'C13 %s differs between disordered input and its reconciled form' % name
         if not res_eq(b, c):
@@ -791,7 +819,7 @@ def o_C15(sc):
     mt = mt_of(sc)
     ri = {'RI': True} if sc['kw'].get('ri') else {}
     def profs(m):
-        k = {} if m is None else {'MRTS': float(m)}
+        k = {} if m is None else {'MRTS': _np_form(m, _forms(sc).get('mrts'))}
         return (quiet(spk.isi_profile, a, b, **k), quiet(spk.spike_profile, a, b, **ri, **k),
                 quiet(spk.spike_sync_profile, a, b, **mt, **k),
                 quiet(spk.isi_profile, L, **k), quiet(spk.spike_profile, L, **ri, **k), quiet(spk.spike_sync_profile, L, **mt, **k))
@@ -854,8 +882,12 @@ def o_C15(sc):
     if 'own0' not in sc:
         for u, v in ((a, b), (a, empty), (empty, b)):
             thr2 = quiet(default_thresh, quiet(spk.spikes.reconcile_spike_trains, [u, v]))
-            for f, k in ((spk.isi_profile, {}), (spk.spike_profile, ri), (spk.spike_sync_profile, mt), (spk.isi_distance, {}),
-                         (spk.spike_distance, ri), (spk.spike_sync, mt)):
+            combos = [(spk.isi_profile, {}), (spk.spike_profile, ri), (spk.spike_sync_profile, mt), (spk.isi_distance, {}),
+                      (spk.spike_distance, ri), (spk.spike_sync, mt)]
+            # 'auto' together with a max_tau well below the automatic threshold (each keyword alone is not enough)
+            for frac in (0.125, 0.25, 0.4):
+                combos += [(spk.spike_sync_profile, {'max_tau': float(thr2) * frac}), (spk.spike_sync, {'max_tau': float(thr2) * frac})]
+            for f, k in combos:
                 x = quiet(f, u, v, MRTS='auto', **k)
                 y = quiet(f, u, v, MRTS=thr2, **k)
                 if not res_eq(x, y):
@@ -1584,6 +1616,16 @@ def o_C10(sc):
         ey += [ev(x[k], +1), ev(x[k + 1], -1)]
     if not aeq(px, [float(v) for v in ex], 0) or not aeq(py, [float(v) for v in ey]):
         return 'C10 plottable arrays do not trace the pieces'
+    # the same function built from INTEGER-typed breakpoints (Python ints / np.arange), values as before
+    if all(Fr(v).denominator == 1 for v in x):
+        xi = np.array([int(v) for v in x])
+        gi = PieceWiseConstFunc(xi, np.array([float(v) for v in f[1]])) if kind == 'pwc' else \
+            PieceWiseLinFunc(xi, np.array([float(v) for v in f[1]]), np.array([float(v) for v in f[2]]))
+        qx, qy = quiet(gi.get_plottable_data)
+        if not aeq(qx, [float(v) for v in ex], 0) or not aeq(qy, [float(v) for v in ey]):
+            return 'C10 a function with integer-typed breakpoints: plottable arrays %s / %s do not trace the pieces %s' % (list(qx), list(qy), [float(v) for v in ey])
+        if not feq(quiet(gi.integral), integral_exact(kind, f, Fr(x[0]), Fr(x[-1]))):
+            return 'C10 a function with integer-typed breakpoints: integral() differs'
     # the plottable arrays belong to the caller: rescaling them in place (units!) must not touch the function
     before_ = (quiet(g.integral), list(g.x))
     px *= 1000.0; py += 1.0
